@@ -1,5 +1,5 @@
 import CrabProofs.Lemmas.PatriciaEnvItv
-import CrabProofs.Lemmas.PatriciaSet
+import CrabProofs.Lemmas.PatriciaSetOps
 
 /-!
 # C19 — environment maps and sets behave as their mathematical counterparts
@@ -590,3 +590,35 @@ theorem C19.dd_eq_counterexample : ¬ C19.dd_eq_Statement false := by
     simp [DD.eq, DD.top, DD.bottom, PSet.eq, PSet.subset, leqTree, Patricia.compare]
   have h3 := (h1.mp h2).1
   revert h3; decide
+
+/-- `discrete_domain::operator+=(e)`, `operator-=(e)` and the set difference `operator-(Range)`:
+    the result is well formed and `contain` answers pointwise.  A top value is returned unchanged
+    by `-=` and `-` (the code cannot represent co-finite sets; the theorems say so explicitly rather
+    than hiding it), and `a - top` for a non-top `a` is the CRAB_ERROR of iterating a top set. -/
+theorem C19.dd_add (pe : PSet.T → PSet.T → Bool) (hpe : ∀ a b, pe a b = true → a = b) (a : DD)
+    (ha : DD.Inv a) (k : Nat) (hk : k < 2 ^ 64) :
+    DD.Inv (DD.add (PSet.ctx pe) a k) ∧
+      ∀ k', (DD.add (PSet.ctx pe) a k).contain k' = (decide (k' = k) || a.contain k') :=
+  DD.add_spec (PSet.ctx_sound pe hpe) ha hk
+theorem C19.dd_remove (pe : PSet.T → PSet.T → Bool) (hpe : ∀ a b, pe a b = true → a = b) (a : DD)
+    (ha : DD.Inv a) (k : Nat) (hk : k < 2 ^ 64) :
+    DD.Inv (DD.remove (PSet.ctx pe) a k) ∧
+      (a.isTop = false → ∀ k', (DD.remove (PSet.ctx pe) a k).contain k' = (!decide (k' = k) && a.contain k')) ∧
+      (a.isTop = true → DD.remove (PSet.ctx pe) a k = a) :=
+  DD.remove_spec (PSet.ctx_sound pe hpe) ha hk
+theorem C19.dd_diff (pe : PSet.T → PSet.T → Bool) (hpe : ∀ a b, pe a b = true → a = b) (a b : DD)
+    (ha : DD.Inv a) (hb : DD.Inv b) (hbt : b.isTop = false) :
+    ∃ r, DD.diff (PSet.ctx pe) a b = some r ∧ DD.Inv r ∧
+      (a.isTop = false → ∀ k, r.contain k = (a.contain k && !b.contain k)) ∧
+      (a.isTop = true → r = a) :=
+  DD.diff_spec (PSet.ctx_sound pe hpe) ha hb hbt
+theorem C19.dd_diff_top_error (pe : PSet.T → PSet.T → Bool) (a b : DD)
+    (hat : a.isTop = false) (hbt : b.isTop = true) : DD.diff (PSet.ctx pe) a b = none :=
+  DD.diff_top_error (PSet.ctx pe) hat hbt
+/-- the hypotheses of `dd_diff` are met by non-trivial values: {3, 5, 2^63} - {5} -/
+example :
+    let c := PSet.ctx (fun _ _ => false)
+    let a : DD := ⟨false, PSet.add c (PSet.add c (PSet.add c PSet.empty 3) 5) (2 ^ 63)⟩
+    let b : DD := ⟨false, PSet.add c PSet.empty 5⟩
+    (DD.diff c a b).map (fun r => (r.contain 3, r.contain 5, r.contain (2 ^ 63))) = some (true, false, true) := by
+  decide
